@@ -18,6 +18,8 @@
 //	  writer, equal the exact model in single-writer runs, and end at ToSlice().
 //	Event: exactly one Trigger() returns true; OnTrigger handlers run exactly once
 //	  whether registered before, during or after Trigger.
+//	Variants (variants.go): OnUpdateOnce, OnUpdateWithContext, WithValue, WithNonEmptyValue,
+//	  LogUpdates (Variable and Event) and Set.WithElements as first-class subscribers.
 package main
 
 import (
@@ -1596,6 +1598,8 @@ func runOne(scenario string, rng *rand.Rand) ([]viol, runStats) {
 		return runEvent(rng)
 	case "teardown":
 		return runTeardown(rng)
+	case "variants":
+		return runVariants(rng)
 	}
 	panic("unknown scenario " + scenario)
 }
@@ -1651,7 +1655,7 @@ func child(c *vf.Ctx) {
 	}
 }
 
-var scenarios = []string{"var", "set", "event", "teardown"}
+var scenarios = []string{"var", "set", "event", "teardown", "variants"}
 
 func run(c *vf.Ctx) {
 	if c.Replay != "" {
@@ -1675,9 +1679,10 @@ func run(c *vf.Ctx) {
 		}
 		return
 	}
-	c.SetRule("one evaluation = one run: a fresh reactive Variable / Set / Event driven by 1-4 seeded writer goroutines (Set, Compute, DefaultTo, Init, writes arriving through InheritFrom/DeriveValueFrom, readers holding Variable.Read; on events every write method with true and false around and after Trigger; Add, Delete, AddAll, DeleteAll, Apply, Compute, Replace; Trigger) racing with 1-6 goroutines that subscribe and unsubscribe at seeded points (with/without triggerWithInitialZeroValue, slow callbacks; unsubscribe functions are called 1-3 times, redundant calls sequentially or from other goroutines), followed by tail writes after all subscription activity, checked after join against the writers' own chain / returned mutations / exact single-writer model; runs are distinct by construction (run seed); distinct_nontrivial counts runs in which at least one OnUpdate/OnTrigger call overlapped (by logical ticks) a value-changing write")
+	c.SetRule("one evaluation = one run: a fresh reactive Variable / Set / Event driven by 1-4 seeded writer goroutines (Set, Compute, DefaultTo, Init, writes arriving through InheritFrom/DeriveValueFrom, readers holding Variable.Read; on events every write method with true and false around and after Trigger; Add, Delete, AddAll, DeleteAll, Apply, Compute, Replace; Trigger) racing with 1-6 goroutines that subscribe and unsubscribe at seeded points (with/without triggerWithInitialZeroValue, slow callbacks; unsubscribe functions are called 1-3 times, redundant calls sequentially or from other goroutines), followed by tail writes after all subscription activity, checked after join against the writers' own chain / returned mutations / exact single-writer model; runs are distinct by construction (run seed); scenario variants: the derived subscription variants (OnUpdateOnce with/without condition, OnUpdateWithContext, WithValue with/without condition, WithNonEmptyValue, LogUpdates on Variable and Event; Set.WithElements with/without condition) subscribe and unsubscribe on a usually already non-zero value while 1-3 writers hand out unique increasing values, each checked against the writers' chain (one-shot: exactly the first satisfying element of its stream, state at subscription time first); distinct_nontrivial counts runs in which at least one OnUpdate/OnTrigger call overlapped (by logical ticks) a value-changing write")
 	total := c.Pick(20000, 600000)
-	share := map[string]int{"var": total * 41 / 100, "set": total * 41 / 100, "event": total * 10 / 100, "teardown": total * 8 / 100}
+	share := map[string]int{"var": total * 41 / 100, "set": total * 41 / 100, "event": total * 10 / 100, "teardown": total * 8 / 100,
+		"variants": total * 25 / 100} // on top of the original shares
 	chunk := c.Pick(500, 6000)
 	var jobs []job
 	for _, scn := range scenarios {
@@ -1709,6 +1714,14 @@ func run(c *vf.Ctx) {
 	c.Require("inherited_writes_racing_direct_writes", total/2)
 	c.Require("writes_without_returned_previous_value", total/10) // Init / InheritFrom / DeriveValueFrom as writers
 	c.Require("event_false_writes_after_trigger", total/10*5)     // every write method with false after Trigger (6 per event run)
+	// scenario "variants": one-shot / with-context / with-value / with-elements subscriptions as first-class subscribers
+	c.Require("once_subscriptions", total/4)
+	c.Require("once_subscriptions_with_condition", total/10)
+	c.Require("once_initial_state_deliveries", total/10)
+	c.Require("once_on_nonzero_value_with_write_in_flight", max(20, c.Pick(100, 3000)*par/4))
+	c.Require("contexts", total/10)
+	c.Require("value_setups", total/10)
+	c.Require("element_setups", total/10)
 	c.Require("nontrivial", max(100, c.Pick(300, 10000)*par/4))
 }
 
